@@ -322,12 +322,16 @@ def gen_value(desc, rng, small=False):
     raise ValueError(desc)
 
 
-def struct_as_dict(desc, seq):
-    """positional struct value -> dict form (only possible when unnamed members <= 1: key None)"""
+def struct_as_dict(desc, seq, rng=None):
+    """positional struct value -> dict form (only possible when unnamed members <= 1: key None).
+    rng: the keys are inserted in a shuffled order - a mapping carries no member order"""
     names = [n for n, d in desc[1]]
     if names.count(None) > 1 or "" in names:
         return None
-    return {n: v for n, v in zip(names, seq)}
+    items = list(zip(names, seq))
+    if rng is not None and rng.random() < 0.6:
+        rng.shuffle(items)
+    return {n: v for n, v in items}
 
 
 def truncate_expected(desc, v):
